@@ -79,4 +79,15 @@ FieldLemmas ==
   /\ \A a \in 1..255 : GFExp[GFLog[a] + 1] = a
   /\ \A d \in 1..30 : Len(GenPoly(d)) = d + 1 /\ GenPoly(d)[1] = 1
   /\ \A d \in {7,10,13,15,16,17,18,20,22,24,26,28,30} : \A i \in 0..d-1 : PolyEvalHi(GenPoly(d), Alpha(i)) = 0
+  \* field axioms the decoder relies on: inverses, distributivity and associativity on a sample that contains 0, 1, the
+  \* reduction constant and both ends of the range
+  /\ \A a \in 1..255 : GFMul(a, GFInv(a)) = 1 /\ GFMul(a, 1) = a /\ GFMul(a, 0) = 0
+  /\ \A a, b, c \in {0, 1, 2, 29, 128, 142, 255} : /\ GFMul(a, b ^^ c) = GFMul(a, b) ^^ GFMul(a, c)
+                                                   /\ GFMul(a, GFMul(b, c)) = GFMul(GFMul(a, b), c)
+                                                   /\ GFMul(a, b) = GFMul(b, a)
+  \* anchors typed from ISO 18004: alpha^8 = 29 (the primitive polynomial 0x11D) and the generator polynomials of
+  \* degree 7 and 10 of Annex A, given there as exponents of alpha
+  /\ GFExp[9] = 29
+  /\ GenPoly(7) = [k \in 1..8 |-> Alpha(<<0, 87, 229, 146, 149, 238, 102, 21>>[k])]
+  /\ GenPoly(10) = [k \in 1..11 |-> Alpha(<<0, 251, 67, 46, 61, 118, 70, 64, 94, 32, 45>>[k])]
 =============================================================================
